@@ -475,6 +475,58 @@ def fromStorage (n : Num) (st : Store) (t : TableCtx) (imgs : Images) (c : CellI
     firstIndent := firstIndent, leftIndent := leftIndent, rightIndent := rightIndent
     textInset := textInset, textWrap := textWrap, name := ts.name }
 
+/-! ### which archive a cell is pointed at -/
+
+/-- the de-duplication key of `update_cell_styles` (as repaired: a tuple), on values:
+    `(alignment.vertical, first_indent, left_indent, right_indent, text_inset, text_wrap, repr(bg_color), bg_image.filename)` -/
+structure Fingerprint where
+  valign : Nat
+  firstIndent : Rat
+  leftIndent : Rat
+  rightIndent : Rat
+  textInset : Rat
+  textWrap : Bool
+  bgColor : Bg
+  bgImage : Option Text
+  deriving DecidableEq, Repr
+
+def fingerprint (s : Sty) : Fingerprint :=
+  ⟨s.valign, s.firstIndent, s.leftIndent, s.rightIndent, s.textInset, s.textWrap, s.bgColor, s.bgImage.map (·.filename)⟩
+
+/-- the `styleTable` data list of a table: (key, referenced object) in list order, and `next_key` -/
+structure StyleList where
+  entries : List (Nat × Nat)
+  nextKey : Nat
+  deriving DecidableEq, Repr
+
+/-- `DataLists.lookup_key(table_id, Reference(identifier=obj))` -/
+def StyleList.lookupKey (dl : StyleList) (obj : Nat) : Nat × StyleList :=
+  match dl.entries.find? (fun e => e.2 = obj) with
+  | some e => (e.1, dl)
+  | none => (dl.nextKey, ⟨dl.entries ++ [(dl.nextKey, obj)], dl.nextKey + 1⟩)
+
+/-- the style part of `Cell._to_buffer`: a cell whose `_style` is set is pointed at the style's text
+    object and cell object (each only if the style has one); a cell without `_style` keeps its ids. -/
+def toBufferIds (dl : StyleList) (c : CellIds) (style : Option (Option Nat × Option Nat)) : CellIds × StyleList :=
+  match style with
+  | none => (c, dl)
+  | some (tobj, cobj) =>
+    let r1 : CellIds × StyleList :=
+      match tobj with
+      | some o => ({ c with textStyleId := some (dl.lookupKey o).1 }, (dl.lookupKey o).2)
+      | none => (c, dl)
+    match cobj with
+    | some o => ({ r1.1 with cellStyleId := some (r1.2.lookupKey o).1 }, (r1.2.lookupKey o).2)
+    | none => r1
+
+/-- all cells of a table in the order they are saved -/
+def toBufferAll : StyleList → List (CellIds × Option (Option Nat × Option Nat)) → List CellIds × StyleList
+  | dl, [] => ([], dl)
+  | dl, (c, sty) :: rest =>
+    let r := toBufferIds dl c sty
+    let rs := toBufferAll r.2 rest
+    (r.1 :: rs.1, rs.2)
+
 /-! ### a cell that was given a style, saved: write, then read -/
 
 /-- what a reload reads for a cell whose text style and cell style are the archives written for `s`
